@@ -233,8 +233,8 @@ impl Prop for C01 {
     }
     fn work(&self, tier: Tier) -> Work {
         match tier {
-            Tier::Quick => Work { cases_per_worker: 500, workers: 8 },
-            Tier::Thorough => Work { cases_per_worker: 40_000, workers: 16 },
+            Tier::Quick => Work { cases_per_worker: 5000, workers: 8 },
+            Tier::Thorough => Work { cases_per_worker: 160000, workers: 16 },
         }
     }
     fn strategy(&self, _tier: Tier) -> BoxedStrategy<CScenario> {
